@@ -3,7 +3,33 @@
 //   HULLM <id> <program>              Hull() of the one manifold / Hull(vector) of all manifolds left on the stack
 //   MINK <id> sum|diff <program A> | <program B>
 // Output: bit patterns and integers only.
+//   CONV <id> <program>               Impl::IsConvex() of the manifold + its export (direct tie of the Minkowski dispatch)
+#include <algorithm>
+#include <array>
+#include <atomic>
+#include <cmath>
+#include <cstdint>
+#include <cstdio>
+#include <cstdlib>
+#include <cstring>
+#include <functional>
 #include <iostream>
+#include <map>
+#include <memory>
+#include <mutex>
+#include <set>
+#include <sstream>
+#include <string>
+#include <unordered_map>
+#include <unordered_set>
+#include <vector>
+#define private public
+#define protected public
+#include "manifold/manifold.h"
+#include "impl.h"
+#include "csg_tree.h"
+#undef private
+#undef protected
 
 #include "c16_prog.h"
 
@@ -50,6 +76,15 @@ int main() {
       pb(h.GetEpsilon()); pb(h.GetTolerance()); pb(h.Volume());
       printf(" %d %d\n", (int)h.Simplify().IsEmpty(), (int)h.IsEmpty());
       dump_mesh("HM", id, h);
+    } else if (cmd == "CONV") {
+      std::vector<Manifold> st;
+      run_program(is, st);
+      const Manifold& M = st.back();
+      auto impl = M.GetCsgLeafNode().GetImpl();
+      printf("CV %s %d %d %d", id.c_str(), (int)M.Status(), (int)impl->IsConvex(), M.Genus());
+      pb(M.GetTolerance());
+      printf("\n");
+      dump_mesh("CM", id, M);
     } else if (cmd == "MINK") {
       std::string op;
       is >> op;
@@ -61,7 +96,8 @@ int main() {
       Manifold R = op == "sum" ? A.MinkowskiSum(B) : A.MinkowskiDifference(B);
       printf("MS %s %s %d", id.c_str(), op.c_str(), (int)R.Status());
       pb(A.Volume()); pb(B.Volume()); pb(R.Volume()); pb(R.GetTolerance());
-      printf(" %d %d\n", (int)(A.Genus()), (int)(B.Genus()));
+      printf(" %d %d %d %d\n", (int)(A.Genus()), (int)(B.Genus()), (int)A.GetCsgLeafNode().GetImpl()->IsConvex(),
+             (int)B.GetCsgLeafNode().GetImpl()->IsConvex());
       dump_mesh("MA", id, A);
       dump_mesh("MB", id, B);
       dump_mesh("MR", id, R);
